@@ -3,7 +3,8 @@
 Part A (formula level): Hypothesis builds clause sets (gaps in numbering, repeated literals, long clauses), a `fresh`
 counter, a support size (0..35, crossing the 10-per-line boundary), optionally a cardinality request, solver assignments.
 The file written by combine_and_save_cnf is read back with a strict DIMACS parser written from the format description.
-Part B (design level): the files the samplers actually write for generated blocks (added with the design generators).
+Part B (design level, vp/props/c27_blocks.py): the files the samplers actually write for generated blocks, captured at
+every IterateSATGen iteration and at the CMSGen / UniGen call.
 
 Oracles: the strict parse; arithmetic on the header; literal equality for parser round-trips; truth tables for the blocking
 clause; brute-force projected model sets for the iterate loop.
@@ -119,6 +120,9 @@ _LAST = {}
 
 def check_case(case):
     _LAST.clear()
+    if isinstance(case, dict) and "block" in case:          # a design-level case (vp/props/c27_blocks.py)
+        from . import c27_blocks
+        return c27_blocks.check_case(case)
     if not _valid(case):
         return []
     fails = []
@@ -444,9 +448,6 @@ def _run_hyp(arg):
 def run(tier, seed):
     n = 150 if tier == "quick" else 2500
     acc = runner.run_jobs(_run_hyp, [(runner.shard_seed(seed, i), n) for i in range(16)])
-    try:
-        from . import c27_blocks
-        acc.merge(c27_blocks.run(tier, seed))
-    except ImportError:
-        acc.label("design-level-part-not-built")
+    from . import c27_blocks
+    acc.merge(c27_blocks.run(tier, seed))
     return acc
